@@ -20,7 +20,6 @@ def mw(ctx) -> Tuple[ClassInfo, Program]:
 def canon_expr(fn, e: ast.AST, subject: Optional[str] = None) -> str:
     """Inline single-assignment locals and rename the subject variable to `_S`."""
     x = inline_locals(fn, e)
-    x = copy.deepcopy(x)
     if subject:
         for n in ast.walk(x):
             if isinstance(n, ast.Name) and n.id == subject:
